@@ -277,6 +277,7 @@ def sensitive_vars(n, top=True):
                     s_after |= all_vars(e)      # a pushed binding changes which rows DISTINCT / a slice keeps, whatever the group binds before
             if e[0] == "filter":
                 if t == "group": s_filter |= expr_vars(e[1])
+                elif any(x[0] == "subselect" for x in inner[1]): s_after |= expr_vars(e[1])     # the OPTIONAL's condition is evaluated on solutions of a sub-select, whose projection dropped the left bindings
             elif e[0] == "bind": s |= (expr_vars(e[1]) | {e[2]}) - bound
             else: s |= all_vars(e) - bound
         return s | (s_filter - certain(inner)) | s_after
